@@ -59,7 +59,8 @@ pub struct Scratch {
 }
 impl Scratch {
     pub fn new(name: &str) -> Self {
-        let dir = work_root().join(format!("{name}-{}", std::process::id()));
+        // deterministic name: absolute paths are hashed inside the engine (path-keyed caches)
+        let dir = work_root().join(name);
         let _ = std::fs::remove_dir_all(&dir);
         std::fs::create_dir_all(&dir).expect("scratch dir");
         Scratch { dir }
@@ -67,6 +68,9 @@ impl Scratch {
 }
 impl Drop for Scratch {
     fn drop(&mut self) {
+        if std::env::var("VERIF_KEEP").is_ok() {
+            return;
+        }
         let _ = std::fs::remove_dir_all(&self.dir);
     }
 }
